@@ -389,10 +389,7 @@ func (rn *runner) emit(r *gen.Rand, route, dir string, input []seriesIn, expecte
 	}
 	rn.meta.Nontrivial += len(alts)
 	rn.meta.Evaluations++
-	galts := "[]"
-	if len(alts) > 0 {
-		galts = "(" + gallina.List(alts) + ")%uint63"
-	}
+	galts := gallina.List(alts) // ia/ca take primitive ints: their arguments are parsed in uint63_scope
 	rn.cf.Add(curPool.wrap(fmt.Sprintf("mkCase %s %s\n %s\n %s\n (ROk %s)\n %s", gallina.Z(int64(id)), gin, pkRaw(rb.Index), gallina.List(gsegs), o.gallina(), galts)))
 	rn.meta.Case(id, d)
 }
